@@ -520,3 +520,49 @@ func ZZH_C17_replaced_chain_admin() {
 		zz.Cover("C17.replaced.new-admin-accepted", oerr == nil)
 	}
 }
+
+// ZZH_C17_retained_admin_not_up_for_grabs: after an approved update of a chain's admin list that
+// KEEPS an admin (the list [M] becomes [M,N]), an outsider cannot name that retained admin as admin
+// of a chain of its own: the application is refused, the admin's role and chain binding stay.
+func ZZH_C17_retained_admin_not_up_for_grabs() {
+	w, cs := zzFullWorld()
+	w.audit = zz.Choice("audit", 2) == 1
+	zzPutGovAdmins(w, 4)
+	newAdmin := "0xC100000000000000000000000000000000000004"
+	outsider := "0xC900000000000000000000000000000000000009"
+	ret, err := zzTx(w, cs[zzAppchainAddr], zzAppchainAddr, zzMallory, "RegisterAppchain", []*pb.Arg{
+		pb.String("chX"), pb.String("nameX"), pb.Bytes(nil), pb.String("ETH"), pb.Bytes([]byte("root")), pb.String("0xBroker"), pb.String("desc"),
+		pb.String(validator.HappyRuleAddr), pb.String("url"), pb.String(zzMallory), pb.String("reason")})
+	var gr governance.GovernanceResult
+	_ = json.Unmarshal(ret, &gr)
+	p, ok := zzProposalOf(w, gr.ProposalID)
+	zz.Assert("C17.retained.submitted", err == nil && ok)
+	if err != nil || !ok {
+		return
+	}
+	_, err = zzTx(w, cs[zzAppchainAddr], zzAppchainAddr, zzGovAddr, "Manage",
+		[]*pb.Arg{pb.String(string(governance.EventRegister)), pb.String(string(APPROVED)), pb.String(""), pb.String("chX"), pb.Bytes(p.Extra)})
+	zz.Assert("C17.retained.registered", err == nil)
+	ret, err = zzTx(w, cs[zzAppchainAddr], zzAppchainAddr, zzMallory, "UpdateAppchain", []*pb.Arg{
+		pb.String("chX"), pb.String("nameX"), pb.String("desc"), pb.Bytes([]byte("root")), pb.String(zzMallory + "," + newAdmin), pb.String("a second admin")})
+	_ = json.Unmarshal(ret, &gr)
+	p2, ok2 := zzProposalOf(w, gr.ProposalID)
+	zz.Assert("C17.retained.update-submitted", err == nil && ok2)
+	if err != nil || !ok2 {
+		return
+	}
+	_, err = zzTx(w, cs[zzAppchainAddr], zzAppchainAddr, zzGovAddr, "Manage",
+		[]*pb.Arg{pb.String(string(governance.EventUpdate)), pb.String(string(APPROVED)), pb.String(string(governance.GovernanceAvailable)), pb.String("chX"), pb.Bytes(p2.Extra)})
+	zz.Assert("C17.retained.update-approved", err == nil)
+	victim := []string{zzMallory, newAdmin}[zz.Choice("victim", 2)]
+	var before Role
+	w.getObj(zzRoleAddr, RoleKey(victim), &before)
+	snap := w.snapshot()
+	_, aerr := zzTx(w, cs[zzAppchainAddr], zzAppchainAddr, outsider, "RegisterAppchain", []*pb.Arg{
+		pb.String("chY"), pb.String("nameY"), pb.Bytes(nil), pb.String("ETH"), pb.Bytes([]byte("root")), pb.String("0xBroker2"), pb.String("desc"),
+		pb.String(validator.HappyRuleAddr), pb.String("url"), pb.String(victim), pb.String("mine now")})
+	zz.Assert("C17.retained.application-naming-another-chains-admin-refused", aerr != nil && w.unchanged(snap))
+	var after Role
+	w.getObj(zzRoleAddr, RoleKey(victim), &after)
+	zz.Assert("C17.retained.admin-keeps-its-chain", after.AppchainID == before.AppchainID && after.Status == before.Status)
+}
